@@ -178,7 +178,89 @@ def bare_index(fn, target, where):
     return hits[0]
 
 
+def alt_inherited(tree):
+    """ComplexModelMeta.__new__: for b in cls_bases: ... _type_info_alt.update(b._type_info_alt)"""
+    fn = find_function(tree, ['ComplexModelMeta', '__new__'])
+    if not any(isinstance(s, ast.Assign) and any(is_name(t, '_type_info_alt') for t in s.targets) for s in ast.walk(fn)):
+        raise TranslateError('ComplexModelMeta.__new__ does not create _type_info_alt')
+    for loop in ast.walk(fn):
+        if isinstance(loop, ast.For) and is_name(loop.iter, 'cls_bases') and isinstance(loop.target, ast.Name):
+            b = loop.target.id
+            for c in ast.walk(loop):
+                if isinstance(c, ast.Call) and attr_chain(c.func) == ['_type_info_alt', 'update'] and len(c.args) == 1 \
+                        and attr_chain(c.args[0]) == [b, '_type_info_alt']:
+                    return True
+    return False
+
+
+def hdr_key_qualified(fn):
+    """Soap11.deserialize: in_header_dict = dict([(element.tag, element) for ...]) looked up with
+    "{%s}%s" % (head_class.__namespace__, head_class.__type_name__): True; keyed / looked up by the local name: False"""
+    keyed = looked = None
+    for s in ast.walk(fn):
+        if isinstance(s, ast.Assign) and len(s.targets) == 1 and is_name(s.targets[0], 'in_header_dict'):
+            v = s.value
+            if not (isinstance(v, ast.Call) and is_name(v.func, 'dict') and len(v.args) == 1
+                    and isinstance(v.args[0], (ast.ListComp, ast.GeneratorExp)) and isinstance(v.args[0].elt, ast.Tuple)
+                    and len(v.args[0].elt.elts) == 2):
+                raise TranslateError('Soap11.deserialize: in_header_dict is not dict([(key, element) for ...])')
+            k = v.args[0].elt.elts[0]
+            if attr_chain(k) == ['element', 'tag']:
+                keyed = True
+            elif any(isinstance(c, ast.Call) and isinstance(c.func, ast.Attribute) and c.func.attr in ('split', 'rsplit', 'partition')
+                     for c in ast.walk(k)) or any(isinstance(c, ast.Attribute) and c.attr == 'localname' for c in ast.walk(k)):
+                keyed = False
+            else:
+                raise TranslateError('Soap11.deserialize: unrecognised header dictionary key')
+        if isinstance(s, ast.Assign) and len(s.targets) == 1 and is_name(s.targets[0], 'nsval'):
+            v = s.value
+            if isinstance(v, ast.BinOp) and isinstance(v.op, ast.Mod) and isinstance(v.left, ast.Constant) and v.left.value == '{%s}%s' \
+                    and isinstance(v.right, ast.Tuple) and [attr_chain(e) for e in v.right.elts] == \
+                    [['head_class', '__namespace__'], ['head_class', '__type_name__']]:
+                looked = True
+    if keyed is None:
+        raise TranslateError('Soap11.deserialize: in_header_dict not found')
+    gets = [c for c in ast.walk(fn) if isinstance(c, ast.Call) and attr_chain(c.func) == ['in_header_dict', 'get']]
+    if len(gets) != 1:
+        raise TranslateError('Soap11.deserialize: expected one in_header_dict.get(...)')
+    arg = gets[0].args[0]
+    if is_name(arg, 'nsval') and looked:
+        return keyed
+    if attr_chain(arg) == ['head_class', '__type_name__']:
+        return False
+    raise TranslateError('Soap11.deserialize: unrecognised header lookup key')
+
+
+def parser_flag(init, key):
+    """XmlDocument.__init__: the value of self.parser_kwargs[key] of a protocol built with the default arguments
+    (a literal, or the default of the __init__ parameter handed on); a key that is not passed is lxml's default, False"""
+    dicts = [s.value for s in ast.walk(init) if isinstance(s, ast.Assign) and len(s.targets) == 1
+             and attr_chain(s.targets[0]) == ['self', 'parser_kwargs']]
+    if len(dicts) != 1 or not (isinstance(dicts[0], ast.Call) and is_name(dicts[0].func, 'dict') and not dicts[0].args):
+        raise TranslateError('XmlDocument.__init__: self.parser_kwargs is not one dict(key=value, ...)')
+    kws = dicts[0].keywords
+    if any(k.arg is None for k in kws):
+        raise TranslateError('XmlDocument.__init__: **mapping inside parser_kwargs')
+    vals = [k.value for k in kws if k.arg == key]
+    if not vals:
+        return False
+    v = vals[-1]
+    if isinstance(v, ast.Name):
+        a = init.args
+        pos = a.posonlyargs + a.args
+        defaults = dict(zip([x.arg for x in pos[len(pos) - len(a.defaults):]], a.defaults))
+        defaults.update((x.arg, d) for x, d in zip(a.kwonlyargs, a.kw_defaults) if d is not None)
+        if v.id not in defaults:
+            raise TranslateError('XmlDocument.__init__: parser_kwargs[%s] comes from %s, which has no default' % (key, v.id))
+        v = defaults[v.id]
+    if isinstance(v, ast.Constant) and isinstance(v.value, bool):
+        return v.value
+    raise TranslateError('XmlDocument.__init__: parser_kwargs[%s] is not a boolean literal' % key)
+
+
 def generate(repo):
+    cm = parse(repo, 'spyne/model/complex.py')
+    alt_inh = alt_inherited(cm)
     xml = parse(repo, 'spyne/protocol/xml.py')
     soap = parse(repo, 'spyne/protocol/soap/soap11.py')
     const = parse(repo, 'spyne/const/__init__.py')
@@ -188,6 +270,9 @@ def generate(repo):
     multi, freq = reader_tests(find_function(xml, ['XmlDocument', 'complex_from_element']))
     xi = bare_index(find_function(xml, ['XmlDocument', 'serialize']), 'result_inst', 'XmlDocument.serialize')
     si = bare_index(find_function(soap, ['Soap11', 'serialize']), 'out_object', 'Soap11.serialize')
+    hq = hdr_key_qualified(find_function(soap, ['Soap11', 'deserialize']))
+    init = find_function(xml, ['XmlDocument', '__init__'])
+    rc, rp = parser_flag(init, 'remove_comments'), parser_flag(init, 'remove_pis')
     out = ['(* GENERATED by harness/translate/xmlwire.py from spyne/protocol/xml.py, spyne/protocol/soap/soap11.py,',
            '   spyne/const/__init__.py and spyne/const/xml.py.  Do not edit. *)',
            'From SpyneV Require Import Base.Prelude Base.Ext.', 'Open Scope Z_scope.', '',
@@ -199,6 +284,13 @@ def generate(repo):
            '(* complex_from_element: n = number of occurrences seen *)',
            'Definition xw_read_multi (mo : ext) : bool := %s.' % multi,
            'Definition xw_freq_bad (n mn : Z) (mo : ext) : bool := %s.' % freq, '',
+           '(* ComplexModelMeta.__new__: a class starts from the _type_info_alt tables of its bases *)',
+           'Definition xw_alt_inherited : bool := %s.' % ('true' if alt_inh else 'false'), '',
+           '(* Soap11.deserialize: header blocks are matched to the declared classes by {namespace}name (false: by local name) *)',
+           'Definition xw_hdr_qualified : bool := %s.' % ('true' if hq else 'false'), '',
+           '(* XmlDocument.__init__, self.parser_kwargs of a protocol built with the default arguments *)',
+           'Definition xw_remove_comments : bool := %s.' % ('true' if rc else 'false'),
+           'Definition xw_remove_pis : bool := %s.' % ('true' if rp else 'false'), '',
            '(* serialize, non-wrapped body styles: which item of ctx.out_object is written *)',
            '(* None: the whole ctx.out_object sequence is handed to to_parent *)',
            'Definition xw_xml_bare_index : option Z := %s.' % ('None' if xi is None else '(Some %d)' % xi),
